@@ -128,6 +128,17 @@ func Compile(options Options) (result *Result, err error) {
 	options.Log("Kompiliere den Abstrakten Syntaxbaum zu LLVM ir")
 
 	if !options.LinkInModules {
+		// the ast must be valid, just like in compileWithImports
+		var faulty *ast.Module
+		ast.IterateModuleImports(ddp_main_module, func(module *ast.Module) {
+			if faulty == nil && module.Ast.Faulty {
+				faulty = module
+			}
+		})
+		if faulty != nil {
+			return nil, fmt.Errorf("Fehlerhafter Quellcode im Modul '%s', Kompilierung abgebrochen", faulty.GetIncludeFilename())
+		}
+
 		options.Log("Erstelle llvm Context")
 		llctx, err := newllvmContext()
 		if err != nil {
